@@ -621,3 +621,61 @@ def resolve_position_refs(res):
     for r in res:
         walk(r[2], f)
     return hit[0]
+
+
+# ---------------------------------------------------------------------------------------------
+# witnesses of past failures and of the two recorded findings (also written to corpus/ by tools below)
+
+def witnesses_c06():
+    cs = []
+    for k in (99, 100):
+        for probe in PROBES[:2]:
+            cs.append(Case([HELPERS + 'entry = ' + '{ "a" }' * k + probe + '\n'], msg('entry'), None, expect=['TooManyPlaceables']))
+    cs.append(Case(['e = { 1.00000000000000000000 ->\n    [one] A\n   *[other] B\n }\n'], msg('e'), None))                      # D10
+    cs.append(Case(['e = { NUMBER(1, minimumFractionDigits: 25) ->\n    [one] A\n   *[other] B\n }\n'], msg('e'), None))          # D10
+    cs.append(Case(['e = { NUMBER($n, minimumFractionDigits: 20) ->\n    [one] A\n   *[other] B\n }\n'], msg('e'), [('n', mnum(1.5))], locales=[b'lt']))
+    cs.append(Case(['-inner = x\n-outer = { -inner } { $arg }\nmsg = { -outer(arg: "A") }\n'], msg('msg'), None))               # D12
+    cs.append(Case(['-inner = x\n-outer = { -inner } { $arg }\nmsg = { -outer(arg: "A") }\n'], msg('msg'), [('arg', v_str(b'CALLER'))]))
+    cs.append(Case(['e = { NOPE() ->\n    [a] A\n   *[b] B\n }\nf = { NUMBER(NOPE()) }\n'], msg('e'), None))                     # D13
+    cs.append(Case(['e = { NOPE() ->\n    [a] A\n   *[b] B\n }\nf = { NUMBER(NOPE()) }\n'], msg('f'), None))
+    cs.append(Case(['e = { NUMBER($n, type: "ordinal") ->\n    [1] first\n   *[other] nth\n }\n'], msg('e'), [('n', mnum(1.0))]))  # D14
+    cs.append(Case(['e = { 1.0 ->\n    [1] A\n   *[other] B\n }\n'], msg('e'), None))                                             # D14
+    cs.append(Case(['lol0 = lol\n' + ''.join('lol%d = %s\n' % (d, ('{ lol%d }' % (d - 1)) * 10) for d in range(1, 10))], msg('lol9'), None,
+                   expect=['TooManyPlaceables']))
+    cs.append(Case(['a = { b }\nb = { a }\n'], msg('a'), None, expect=['Cyclic']))
+    return cs
+
+
+def witnesses_c08():
+    cs = [Case(['hello = Hello { $name }\n'], msg('hello'), [('name', v_str(b'X'))], formatter=b'all'),          # D22
+          Case(['hello = Hello\n'], msg('hello'), None, formatter=b'all'),                                     # D22, single-text shortcut
+          Case(['hello = Hello\n'], msg('hello'), None, transform=b'upper'),                                   # shortcut must transform
+          Case(['hello = Hello { $n }\n'], msg('hello'), [('n', mnum(1.5))], formatter=b'num'),
+          Case(['-inner = x\n-outer = { -inner } { $arg }\nmsg = { -outer(arg: "A") }\n'], msg('msg'), [('arg', v_str(b'C'))]),
+          Case(['e = { $a }{ $b }{ $c }{ $d }\n'], msg('e'), [('d', v_str(b'4')), ('b', v_str(b'2')), ('a', v_str(b'1')), ('c', v_str(b'3'))]),
+          Case(['e = { $n ->\n    [one] One\n   *[other] Other\n }\nf = { $n ->\n    [few] Few\n   *[other] Other\n }\n'], msg('e'),
+               [('n', mnum(1.0))], locales=[b'pl'])]
+    return cs
+
+
+def witnesses_c09():
+    d23 = '-t = x\n    .attr = a{ 1 }\nmsg = { -t.attr ->\n    [a1] MATCH\n   *[other] DEFAULT\n }\n'
+    cs = [Case([d23], msg('msg'), None),                                                                         # D23
+          Case(['-t = a{ 1 }\nmsg = x{ CONCAT(-t, "|") }\n'], msg('msg'), None),                               # D23 class (harmless here)
+          Case(['e = a{ missing }b{ -gone }c{ NOPE() }d{ $nope }\n'], msg('e'), None),
+          Case(['e = a{ e }b\n'], msg('e'), None, expect=['Cyclic']),
+          Case([HELPERS + 'entry = ' + '{ 1 }' * 99 + 'x{ { m7 } }y\n'], msg('entry'), None, expect=['TooManyPlaceables']),
+          Case([HELPERS + 'entry = ' + '{ 1 }' * 100 + 'x{ $x }y\n'], msg('entry'), None, expect=['TooManyPlaceables']),
+          Case(['e = { $x }\nf = { e }\ng = a{ f }{ "lit" }{ -t }{ $x }\n-t = T{ $x }\n'], msg('g'), [('x', v_str(b'X'))]),
+          Case(['e = { $x }\n'], msg('e'), [('x', v_str(b'X'))])]
+    return cs
+
+
+def gen_d23(rng):
+    cs = []
+    for inner in ('a{ 1 }', '{ $n }b', 'a{ NUM() }b', '{ 1 }{ 2 }'):
+        ftl = '-t = x\n    .attr = %s\nmsg = { -t.attr ->\n    [a1] MATCH\n    [ab] B\n    [b] T\n   *[other] DEFAULT\n }\n' \
+              'arg = z{ CONCAT(-t.attr) }{ IDENTITY(-t.attr) }\n' % inner
+        for e in ('msg', 'arg'):
+            cs.append(Case([ftl], msg(e), [('n', mnum(1.0))]))
+    return cs
